@@ -14,6 +14,9 @@ CHECKS = {
  'C07': dict(cat='exploration', tech='exhaustive enumeration of immediates through the real reader/literal writer + literal evaluator; pipeline conformance with gcc and clang',
     text='The real immediate reader and literal writer are run natively on every f32 and i32 bit pattern (thorough: all 2^32 each; quick: 4.7M structured) and on class-structured f64/i64 sets (all 4096 sign/exponent values x ~300 significand patterns); the emitted C literal is evaluated by an own evaluator and must denote the input bits. About 30 000 constants are additionally put through the whole pipeline in function bodies, global initialisers and data/element segment offsets, compiled by gcc and clang and read back, which binds the evaluator to the compilers.',
     note='f64/i64 are covered on structured sets, not all 2^64. Assumes correctly rounded decimal conversion in strtod and the compilers, and SSE float moves (no sNaN quieting).', ref='§2 C07'),
+ 'C03': dict(cat='exploration', tech='validator-driven exhaustive enumeration of all valid function bodies up to N instructions, lockstep vs reference interpreter',
+    text='A depth-first generator with the spec validation algorithm (operand stack with Unknown, control frames, polymorphic dead code) enumerates EVERY valid function body of <= N instructions over a 33-symbol alphabet (blocks/loops/ifs with and without results, br/br_if/br_table/return/unreachable, select, drop, locals, a logging host call), a 13-symbol control alphabet (deeper N) and typed alphabets (i64/f32/f64 carried values, locals of all four types in several declaration groupings). Quick: N<=4 / 6 / 4 (about 40 000 bodies), thorough: N<=5 / 8 / 5 (about 1.2 million bodies); every body runs on every input vector; value, trap and ordered host-call trace are compared with the reference.',
+    note='Complete for the stated N and alphabets, silent beyond. Trusts the C compiler and the reference interpreter (spec-suite validated).', ref='§2 C03'),
 }
 
 def main():
